@@ -126,6 +126,14 @@ def ser(op):
         return '(OReduction [%s])' % '; '.join(ser(o) for o in op.operators)
     if t is PS.DiagonalOperator:
         return '(ODiagonal [%s])' % '; '.join(ser(o) for o in op.operators)
+    if t is PS.ProductSpaceOperator:
+        if not (isinstance(op.domain, odl.ProductSpace) and isinstance(op.range, odl.ProductSpace)):
+            raise Unsupported('ProductSpaceOperator between non-product spaces')
+        cs = '[%s]%%nat' % '; '.join('%d' % p.size for p in op.domain)
+        rs = '[%s]%%nat' % '; '.join('%d' % p.size for p in op.range)
+        ents = '; '.join('(%d, %d, %s)%%nat' % (int(i), int(j), ser(o))
+                         for i, j, o in zip(op.ops.row, op.ops.col, op.ops.data))
+        return '(OPSO %s %s [%s])' % (cs, rs, ents)
     if t in (D.ScalingOperator, D.IdentityOperator):
         return '(OLeaf (LScale %s %s))' % (sp_term(op.domain), C.q(float(op.scalar)))
     if t is D.MultiplyOperator:
@@ -222,8 +230,11 @@ class Gen(object):
         # product spaces: the smallest block operator that fits
         if self.is_p(dom) or self.is_p(ran):
             if self.is_p(dom) and self.is_p(ran):
-                if len(dom) == len(ran):
+                if len(dom) == len(ran) and rng.random() < 0.6:
                     return PS.DiagonalOperator(*[self.leaf(a, b) for a, b in zip(dom, ran)])
+                if rng.random() < 0.7:
+                    return PS.ProductSpaceOperator([[self.leaf(a, b) if (i == j or rng.random() < 0.5) or len(dom) != len(ran) else None
+                                                     for j, a in enumerate(dom)] for i, b in enumerate(ran)])
                 mid = self.vspace()
                 return O.OperatorComp(self.leaf(mid, ran), self.leaf(dom, mid))
             if self.is_p(ran):
@@ -309,6 +320,8 @@ class Gen(object):
             kinds += ['reduction'] * 3
         if self.is_p(dom) and self.is_p(ran) and len(dom) == len(ran):
             kinds += ['diagonal'] * 3
+        if self.is_p(dom) and self.is_p(ran):
+            kinds += ['pso'] * 4
         k = rng.choice(kinds)
         d = depth - 1
         if k == 'sum':
@@ -334,6 +347,17 @@ class Gen(object):
             return PS.ReductionOperator(*[self.tree(a, ran, d) for a in dom])
         if k == 'diagonal':
             return PS.DiagonalOperator(*[self.tree(a, b, d) for a, b in zip(dom, ran)])
+        if k == 'pso':
+            nr, nc = len(ran), len(dom)
+            keep = [[rng.random() < 0.6 for _ in range(nc)] for _ in range(nr)]
+            for i in range(nr):                       # no empty row / column (spaces are inferred)
+                if not any(keep[i]):
+                    keep[i][rng.randrange(nc)] = True
+            for j in range(nc):
+                if not any(keep[i][j] for i in range(nr)):
+                    keep[rng.randrange(nr)][j] = True
+            return PS.ProductSpaceOperator([[self.tree(dom[j], ran[i], d) if keep[i][j] else None
+                                             for j in range(nc)] for i in range(nr)])
         return O.FunctionalLeftVectorMult(self.tree(dom, self.F, d), self.el(ran))
 
 
